@@ -201,3 +201,24 @@ def quantize_complex_fn(vc):
     i = Int('i')
     r = out.value.at((i,))
     vc.ensure('C09/quantize_complex/post/range', Implies(And(i >= 0, i < n), And(r.re >= -128, r.re <= 127, r.im >= -128, r.im <= 127)))
+
+
+@contract('C09', 'complex_quantizer_init', functions=[CQ + '.__init__', RQ + '.__init__'])
+def complex_quantizer_init(vc):
+    """Both component quantisers of a ComplexQuantizer are configured exactly like the complex quantiser itself: same target statistics,
+    bit depth, refresh period and sample budget (a component left on a default would re-estimate on a different schedule)."""
+    tm, fw, per, ns = Real('target_mean'), Real('target_fwhm'), Int('stats_calc_period'), Int('stats_calc_num_samples')
+    b = (4, 8)[vc.choose(2, 'num_bits')]
+    vc.assume(And(fw > 0, ns >= 1))
+    out = vc.run(lambda: vc.interp.call(classref(vc, CQ), [], dict(target_mean=tm, target_fwhm=fw, num_bits=b, stats_calc_period=per, stats_calc_num_samples=ns)))
+    vc.cover('reachable')
+    vc.ensure('C09/ComplexQuantizer.__init__/exc/none', out.ok)
+    if not out.ok:
+        return
+    F = out.value.fields
+    for part in ('quantizer_r', 'quantizer_i'):
+        G = F[part].fields
+        vc.ensure(f'C09/ComplexQuantizer.__init__/post/{part}-configured-like-the-complex-quantiser',
+                  And(eq(G['stats_calc_period'], per), eq(G['stats_calc_num_samples'], ns), eq(G['num_bits'], b), eq(G['target_mean'], tm), eq(G['target_fwhm'], fw),
+                      eq(G['target_std'], F['target_std']), eq(G['stats_calc_indices'], 0), G['stats_cache'][0] is None and G['stats_cache'][1] is None))
+    vc.ensure('C09/ComplexQuantizer.__init__/post/own-fields', And(eq(F['stats_calc_period'], per), eq(F['stats_calc_num_samples'], ns), eq(F['num_bits'], b), F['quantizer_r'] is not F['quantizer_i']))
